@@ -258,7 +258,7 @@ func (e *Enc) finish(ur *UnitResult, opt runOpts) {
 			continue
 		}
 		switch q.Kind {
-		case "ensures", "loop-entry", "loop-preserved", "callpre", "cover", "contract-target", "frame", "closure", "lemma", "assert", "typeinv", "law":
+		case "ensures", "loop-entry", "loop-preserved", "callback-entry", "callback-preserved", "callpre", "cover", "contract-target", "frame", "closure", "lemma", "assert", "typeinv", "law":
 			ur.Props[q.Name] = con.props
 		default:
 			ur.Props[q.Name] = con.safetyProps
